@@ -10,7 +10,7 @@ DT_ALL = DT_BOOL + DT_INT + DT_FLOAT
 DT_EXOTIC = ["complex64", "complex128", "longdouble"]     # element types without a same-width unsigned twin / beyond float64 (used by the ragged drivers that opt in)
 
 STRATA = ["norows", "onerow", "onlyempty", "emptyfirst", "emptylast", "emptymid",
-          "consecutive", "trailingrun", "noempty", "onelong", "free", "big", "manyempty", "rect", "pow2"]
+          "consecutive", "trailingrun", "noempty", "onelong", "free", "big", "manyempty", "rect", "pow2", "coincide"]
 
 
 def sizes(tier):
@@ -124,6 +124,25 @@ def length_vector(rng, tier="quick", stratum=None, maxrows=None, maxlen=None, mi
             lens = [rng.choice([0, 1, 1, 2]) for _ in range(rng.choice([64, 128]))]
             if rng.random() < 0.5:
                 lens[-1] = max(1, lens[-1])
+    elif stratum == "coincide":
+        # row lengths with an arithmetic coincidence that a shortcut might mistake for regularity: the first (or last) row exactly as long as the
+        # average row (total = rows x first), deviations that cancel in pairs, a palindrome, all lengths even, two equal neighbours
+        n = rng.randint(3, max(3, maxrows))
+        L = rng.randint(1, maxlen)
+        kind = rng.choice(["first-is-mean", "last-is-mean", "cancel", "palindrome", "even"])
+        if kind in ("first-is-mean", "last-is-mean", "cancel"):
+            rest = [L] * (n - 1)
+            for _ in range(rng.randint(1, n)):
+                i, j = rng.randrange(n - 1), rng.randrange(n - 1)
+                d = rng.randint(0, rest[i])
+                rest[i] -= d
+                rest[j] += d
+            lens = ([L] + rest) if kind != "last-is-mean" else (rest + [L])
+        elif kind == "palindrome":
+            half = [rng.choice([0, pos(), pos()]) for _ in range(max(1, n // 2))]
+            lens = half + [pos()] * (n % 2) + half[::-1]
+        else:
+            lens = [2 * rng.randint(0, max(1, maxlen // 2)) for _ in range(n)]
     elif stratum == "big":
         # more than 20 rows and more than 100 cells: the other branches of repr/str, several 64-cell blocks, long prefix sums
         lens = [rng.choice([0, 0, 1, 3, 5, 8, 9]) for _ in range(rng.randint(22, 40))]
@@ -227,7 +246,22 @@ def gen_slice(rng, n, steps=(None, 1, 1, 2, 3, -1, -1, -2, -3, 7, -7), far=False
     st = rng.choice(steps)
     if far and rng.random() < 0.04:
         st = rng.choice(FAR)
-    return slice(b(), b(), st)
+    parts = [b(), b(), st]
+    if far and rng.random() < 0.12:
+        # start / stop / step carried by numpy integers (what arithmetic on index arrays hands out) -- now and then the extreme value of the carrier type
+        for k in range(3):
+            if parts[k] is not None and rng.random() < 0.6:
+                if rng.random() < 0.25:
+                    d = rng.choice(["int8", "int16", "int32", "int64", "uint8"])
+                    v = int(np.iinfo(d).min) if (rng.random() < 0.6 and np.iinfo(d).min < 0) else int(np.iinfo(d).max)
+                    parts[k] = np.dtype(d).type(v)
+                else:
+                    fits = [d for d in NP_INTS if np.iinfo(d).min <= parts[k] <= np.iinfo(d).max]
+                    if fits:
+                        parts[k] = np.dtype(rng.choice(fits)).type(parts[k])
+        if parts[2] is not None and int(parts[2]) == 0:
+            parts[2] = None
+    return slice(*parts)
 
 
 def slice_tag(s):
